@@ -17,7 +17,7 @@ from ..order import Interp, Model
 from ..cfg import stmt_before, EXIT, RAISE, ENTRY
 
 FILESET = "typhon/files/fileset.py"
-EXPECT = {"C10.fifo": 3, "C10.bound": 2, "C10.flush": 1, "C10.ordered": 2, "C10.args": 3, "C10.errwrap": 2, "C10.collect": 4, "C10.align": 9, "C10.filenames": 1}
+EXPECT = {"C10.fifo": 3, "C10.bound": 1 + 2, "C10.flush": 1, "C10.ordered": 2, "C10.args": 3, "C10.errwrap": 2, "C10.collect": 4, "C10.align": 9, "C10.filenames": 1}
 
 
 def _queue_name(f):
@@ -101,6 +101,28 @@ def rule_bound(ctx):
     apps = [c for c in calls_in(lp) if isinstance(c.func, ast.Attribute) and norm(c.func.value) == q and c.func.attr == "append"]
     if not pops or not apps:
         raise AnalysisError("imap: pops/appends in the loop not found")
+    # a task counts as in flight from the moment it is SUBMITTED: the submission of the next task stands behind the wait for the oldest
+    # one (in the append itself, or bound to a name with no yield / .result() before it is appended)
+    subs = [c for c in calls_in(lp, "submit")]
+    early = []
+    for c in subs:
+        if any(c is x for a_ in apps for x in ast.walk(a_)):
+            continue
+        st_s = enclosing_stmt(c)
+        if not (isinstance(st_s, ast.Assign) and isinstance(st_s.targets[0], ast.Name)):
+            raise AnalysisError("imap: the submitted task %s is neither appended at once nor bound to a name" % norm(c)[:50])
+        fut = st_s.targets[0].id
+        app_st = [enclosing_stmt(a_) for a_ in apps if a_.args and norm(a_.args[0]) == fut]
+        if not app_st:
+            raise AnalysisError("imap: the future %s is never appended to the queue" % fut)
+        between = [x for x in flow.stmts if flow._order(st_s) < flow._order(x) < flow._order(app_st[0]) and any(x is y for y in ast.walk(lp))]
+        waits = [str(norm(x))[:50] for x in between for n_ in ast.walk(x) if isinstance(n_, (ast.Yield, ast.YieldFrom))
+                 or (isinstance(n_, ast.Call) and isinstance(n_.func, ast.Attribute) and n_.func.attr == "result")]
+        if waits:
+            early.append("%s submitted before: %s" % (fut, waits[0]))
+    ctx.ob("FileSet.imap.submit_after_wait", not early, "submissions in the loop: %d; ahead of the wait for the oldest task: %s" % (len(subs), early or "none"),
+           "the next task is submitted only after the oldest one was consumed when the queue is full: otherwise max_workers + 1 tasks are in flight",
+           node=subs[0] if subs else lp, func=f, witness=None if not early else {"max_workers": 2, "tasks started while no result was consumed": 3})
     g = parent(enclosing_stmt(pops[0]))
     kind = "if"
     if isinstance(g, ast.While):
@@ -486,6 +508,15 @@ def rule_align(ctx):
             "matches = list(...) on every path (a generator such as fileset.match(other) is exhausted by zip(*matches) and cannot be indexed) and `if not matches: return` "
             "before the split (zip(*[]) cannot be unpacked)", node=unz[0], func=f,
             witness=None if as_list and guards else {"align": "matches=a.match(other)", "raises": "TypeError: 'generator' object is not subscriptable"})
+    # the loaders keep one content per requested file (None for an unreadable one): icollect.  collect() drops the None contents, every
+    # later content then stands at the position of another file
+    loaders = [c_ for c_ in calls_in(f.node) if isinstance(c_.func, ast.Attribute) and c_.func.attr in ("icollect", "collect", "imap", "map")
+               and any(k_.arg == "files" for k_ in c_.keywords)]
+    if loaders:
+        dropping = [str(norm(c_.func)) for c_ in loaders if c_.func.attr in ("collect", "map")]
+        ctx.ob("FileSet.align.loaders", not dropping, "files are loaded with: %s" % [str(norm(c_.func)) for c_ in loaders],
+               "icollect (lazy, position-preserving) for the primaries and the secondaries; collect() removes the contents of unreadable files and shifts the rest",
+               node=loaders[0], func=f, witness=None if not dropping else {"skip_errors": True, "unreadable": "primary 2 of 5", "content of primary 3": "yielded under the name of primary 2"})
     outer = [st for st in flow.stmts if isinstance(st, ast.For) and calls_in(st.iter, "enumerate")]
     if not outer:
         raise AnalysisError("align: primary loop not found")
